@@ -16,7 +16,7 @@ vars == <<l, bad>>
 
 \* first detector of the record that is not explained ("" if all are)
 FirstBad(r) ==
-    LET tl == TokLines(r.gaps, r.n)
+    LET tl == IF "inner" \in DOMAIN r /\ r.inner # <<>> THEN TokLinesInner(r.gaps, r.inner, r.n) ELSE TokLines(r.gaps, r.n)
         Bad(d) == \/ ~LinesFollowTokens(tl, d.F, d.rep)
                   \/ (r.inj /\ ~SameTokens(tl, r.n, d.F, d.rep))
         B == {i \in 1 .. Len(r.dets) : Bad(r.dets[i])}
